@@ -194,6 +194,7 @@ def run(tier, seed):
         jobs.append(('cse', W.POOL_QUICK[:4], 'NoData', ('-',), seed, 5))
         # a stored result which is the empty text (read back as "no value")
         jobs.append(('emptytext', [None, 2], 'Stored', ('-',), seed, 5))
+        jobs.append(('topleft', [None, 5], 'NoData', ('-',), seed, 5))
         for src in ('NoData', 'Stored', 'Loaded'):       # precedents reached through names
             jobs.append(('named', W.POOL_QUICK[:4], src,
                          ('json',) if src == 'Loaded' else ('-',), seed, 5))
